@@ -1026,8 +1026,13 @@ func main() {
 	}
 	for _, fv := range bt.viols {
 		if fv.nondet {
-			cleanup(b, *keep)
-			die("replay of case %d did not reproduce its violation (%s): a source of nondeterminism escaped the simulator", fv.caseIdx, fv.v.Fingerprint)
+			// The oracle failed on a real execution of the code, but replaying
+			// the tape in a fresh process did not fail the same way: the tree
+			// contains a source of nondeterminism the simulator does not own
+			// (e.g. sync.Pool, which drops entries at random under -race).
+			// The violation stands; the replay file says that it is unstable.
+			fv.v.Message = "[NOT REPRODUCED ON REPLAY: the code under test depends on a source of nondeterminism outside the simulator's seams; the replay file records the original, unminimised tape]\n" + fv.v.Message
+			fmt.Fprintf(os.Stderr, "check: case %d (%s) failed in the batch but not on replay\n", fv.caseIdx, fv.v.Fingerprint)
 		}
 	}
 	known := loadKnown()
